@@ -715,6 +715,12 @@ impl Session {
             && final(self).delivery_tag_by_id == old(self).delivery_tag_by_id,   // [C07.inflow.err-no-emission] a failed flow emits no transfer and loses none
         r is Ok ==> ({
             let frames = Self::item_frames(r->Ok_0);
+            let b = old(self).remote_incoming_window_exhausted_buffer@;
+            frames.len() > 0 && frames[0].body is Flow && frames[0].body->Flow_0.handle is Some
+                ==> forall|i: int| 0 <= i < b.len() ==> (#[trigger] b[i]).1.handle != frames[0].body->Flow_0.handle->Some_0    // [C08.flow.answer-not-ahead-of-parked-deliveries] the flow a sending link owes in answer (drain: "delivery-count advanced over all credit, zero credit left"; echo) is not written AHEAD of deliveries of that link which already took credit and are still held back by the session window: the receiver would see delivery-count 10 / credit 0 and THEN a further delivery
+        }),
+        r is Ok ==> ({
+            let frames = Self::item_frames(r->Ok_0);
             let w = Self::window_from_peer(
                 if flow.next_incoming_id is Some { flow.next_incoming_id->Some_0 } else { old(self).initial_outgoing_id.0 },
                 flow.incoming_window, old(self).next_outgoing_id);
